@@ -149,6 +149,16 @@ class FnPrinter:
         r = n['referencedDecl']; rk = r['kind']; rid = r['id']
         if rk == 'EnumConstantDecl':
             return self.enum_const(rid, r)
+        if rk == 'VarDecl' and rid not in self.tr.decl:
+            tq = r.get('type', {}).get('qualType', '')
+            STD_CONST = {'seekdir': {'beg': 0, 'cur': 1, 'end': 2},
+                         'openmode': {'app': 1, 'ate': 2, 'binary': 4, 'in': 8, 'out': 16, 'trunc': 32},
+                         'iostate': {'goodbit': 0, 'badbit': 1, 'eofbit': 2, 'failbit': 4}}
+            for k, tab in STD_CONST.items():
+                if k in tq and r.get('name') in tab: return str(tab[r['name']])
+            if r.get('name') == 'npos': return '((unsigned long)-1)'
+            if r.get('name') == 'nullopt': return '0'
+            self.fail(n, 'reference to variable %s that is not loaded' % r.get('name'))
         if rk in ('VarDecl', 'ParmVarDecl', 'BindingDecl', 'DecompositionDecl'):
             d = self.tr.decl.get(rid)
             tnode = (d or r)['type']
@@ -177,6 +187,10 @@ class FnPrinter:
     def enum_const(self, rid, r):
         d = self.tr.decl.get(rid)
         par = self.tr.parent.get(rid)
+        STD_ENUMS = {'_S_beg': 0, '_S_cur': 1, '_S_end': 2, '_S_app': 1, '_S_ate': 2, '_S_bin': 4, '_S_in': 8, '_S_out': 16, '_S_trunc': 32,
+                     '_S_goodbit': 0, '_S_badbit': 1, '_S_eofbit': 2, '_S_failbit': 4}
+        if r.get('name') in STD_ENUMS and 'std::_Ios' in r.get('type', {}).get('qualType', '') + r.get('type', {}).get('desugaredQualType', ''):
+            return str(STD_ENUMS[r['name']])
         if par is None or par['id'] not in self.tr.qname_of:
             # enumerator of an enum that was not loaded: use the type of the reference
             q = self.tr.tparse(r['type']).name
@@ -267,6 +281,9 @@ class FnPrinter:
         if ck in ('DerivedToBase', 'UncheckedDerivedToBase'):
             # pointer or glvalue conversion to (first) base
             st = self.ty(sub); dt = self.ty(n)
+            sc = self.tr.category(st.to if st.kind == 'ptr' else st)
+            if sc not in ('record',):
+                return self.ex(sub)      # library types map base and derived to the same shim type
             if st.kind == 'ptr':
                 path = self.base_path(st.to.name, dt.to.name)
                 if not path: self.fail(n, 'base path %s -> %s' % (st, dt))
@@ -652,10 +669,9 @@ class FnPrinter:
         body, c = n['inner'][0], n['inner'][1]
         lc = self.loop_contract()
         out.append(self.ind() + 'do')
+        for l in lc: out.append(self.ind() + '  ' + l)     # cbmc wants do-while contracts between 'do' and the body
         self.block(body, out)
-        out.append(self.ind() + 'while (%s)' % self.cond(c))
-        for l in lc: out.append(self.ind() + '  ' + l)
-        out.append(self.ind() + ';')
+        out.append(self.ind() + 'while (%s);' % self.cond(c))
 
     def st_ForStmt(self, n, out):
         init, condvar, c, inc, body = (n['inner'] + [{}] * 5)[:5]
